@@ -96,7 +96,7 @@ def plan_c01(schema, rm, mi, desc, lines, meta, res, cap=24, modes=walk.ENC_MODE
                 for bgname, bg in (bgs if len(mk) == len(labels) else bgs[:1]):
                     how += 1
                     sc = walk.Script(schema, rm, placed, inst, write_mask=lambda l, mk=mk: l in mk,
-                                     data_how=lambda l, h=how: h % 4, group_how=lambda l, h=how: (h // 4) % 2)
+                                     data_how=lambda l, h=how: h % 6, group_how=lambda l, h=how: (h // 6) % 2)
                     sc.trials = trials
                     toks = sc.build()
                     for mode in modes:
